@@ -268,19 +268,26 @@ def gen_pipe_cases(ctx, cap):
     rng = ctx.rng
     small = [1, 63, 4096, 30000]
     below = [cap - 6000]                   # certainly fits whatever the write granularity
-    above = [cap + 1, cap + 4000, 3 * cap + 17]
+    above = [cap + 1, cap + 4000, 4 * cap + 11]
     large = [1 << 20] if ctx.quick else [1 << 20, 4 << 20]
     widths = [64, 100, 7]
     cases = []
+    budget = {"big": ctx.size(12, 100000)}
 
     def mk(stages, n, kind):
+        if has_limit(stages) and cap - 6000 < n < (1 << 20):
+            # an early-exit reader: with a payload between one pipe and the stages' own buffers the statuses
+            # are a matter of timing in bash too; use a payload that decides them
+            n = 1 << 20
+        if n >= (1 << 20) and not has_limit(stages):
+            if budget["big"] <= 0:
+                n = 4 * cap + 11
+            budget["big"] -= 1
         w = widths[(n + len(stages)) % len(widths)] if n > 1 else 64
+        if n >= (1 << 20):
+            w = 256 if any(s in SLOW for s in stages) else 64
         while not ok_size(n, w):
             n += 1
-        if any(s in SLOW for s in stages) and n > (1 << 20):
-            w = 256                        # byte-at-a-time readers: keep the line count moderate
-            while not ok_size(n, w):
-                n += 1
         cases.append({"stages": list(stages), "n": n, "w": w, "seed": (n + len(cases)) % 23, "kind": kind})
 
     # (a) every class in every position, 2 and 3 stages; the form inside a class and the size rotate
